@@ -23,7 +23,7 @@ D1 = {"n": 6, "tag": 141}
 D2 = {"n": 21, "tag": 142}
 K, K2, K3 = "k-main", "k-oneshot", "k-linked"
 
-ACTIONS = ["W1", "W2", "W3", "WH", "WBAD", "WBADI", "R", "RH", "ST", "M", "L", "E", "CP", "CPU", "HL", "RM", "RMH", "RF", "CL", "LK", "DFLIP", "DTRUNC", "DUTF8", "DTORN", "DDIR"]
+ACTIONS = ["W1", "W2", "W3", "WH", "WBAD", "WBADI", "WMULTI", "R", "RH", "ST", "M", "L", "E", "CP", "CPU", "HL", "RM", "RMH", "RF", "CL", "LK", "DFLIP", "DTRUNC", "DUTF8", "DTORN", "DSHORT", "DDIR"]
 MIXED = ["W1", "W2", "WH", "R", "M", "L", "RM", "RF", "DUTF8", "ST", "W3"]
 
 
@@ -85,6 +85,12 @@ def do_action(srv, side, cache, aux, act):
     if act == "WBADI":
         rep, _ = wr.do_write(srv, cache, side=side, entry="open_hash", n=D1["n"], tag=D1["tag"], opts={"integrity": sri(D2), "size": D1["n"]})
         return [rep]
+    if act == "WMULTI":
+        # a correct multi-hash integrity that contains the writer's algorithm
+        d = ref.gen(D1["n"], D1["tag"])
+        multi = ref.sri("sha1", d) + " " + ref.sri("sha256", d)
+        rep, _ = wr.do_write(srv, cache, side=side, entry="open", key=K, algo="sha256", n=D1["n"], tag=D1["tag"], opts={"time": "8", "integrity": multi})
+        return [rep]
     if act == "R":
         return [srv.call({"op": "read" + suf, "cache": cache, "key": K})]
     if act == "RH":
@@ -135,11 +141,13 @@ def do_action(srv, side, cache, aux, act):
             with open(cp, "r+b") as fh:
                 fh.truncate(D1["n"] - 1)
         return []
-    if act in ("DUTF8", "DTORN"):
+    if act in ("DUTF8", "DTORN", "DSHORT"):
         if os.path.isfile(bp):
             with open(bp, "ab") as fh:
                 if act == "DUTF8":
                     fh.write(b"\n\xff\xfe not utf-8 \xe2\x82")
+                elif act == "DSHORT":
+                    fh.write(b"\n611314477b11ddf2d69a")  # a record torn inside its checksum field
                 else:
                     rec = ref.encode_record({"key": K, "integrity": sri(D2), "time": 9, "size": 1, "metadata": {"é": "ü"}, "raw_metadata": None})
                     fh.write(rec[: len(rec) - 7])
